@@ -205,7 +205,9 @@ class Engine:
         # deterministic resource limit for the feasibility queries (a wall-clock timeout would
         # make path pruning, hence the set of generated obligations, depend on machine load)
         self.solver.set("rlimit", 60000)
-        self.solver.set("timeout", 5000)
+        # (the wall-clock cap is only a safety net for theories that ignore rlimit; it must be far
+        # above what a loaded machine needs for a query that stays within the resource limit)
+        self.solver.set("timeout", 60000)
         self.yield_log = []           # concrete mode: actions emitted
         self.covers = []              # (site, pc) reachability checks
         self.delegated = []
@@ -601,7 +603,7 @@ class Engine:
         if r == z3.unknown and strong:
             s2 = z3.Solver()
             s2.set("rlimit", 6000000)
-            s2.set("timeout", 30000)
+            s2.set("timeout", 120000)
             s2.add(*assertions)
             r = s2.check()
         return r
@@ -612,7 +614,7 @@ class Engine:
         all (whether the small limit suffices depends on incidental details of the formula)."""
         s2 = z3.Solver()
         s2.set("rlimit", 6000000)
-        s2.set("timeout", 30000)
+        s2.set("timeout", 120000)
         g = st.guard()
         s2.add(*(self.qf(st.pc) + ([g] if g is not None and not self.has_quantifier(ZB(g)) else [])))
         return s2.check() == z3.unsat
@@ -918,6 +920,8 @@ class Engine:
                 return NOTFOUND
         if name in self.reg.spec_functions:
             return self.reg.spec_functions[name]
+        if name in self.reg.spec_constants:
+            return self.reg.spec_constants[name]
         return NOTFOUND
 
     def ev_Attribute(self, n, st):
@@ -1786,6 +1790,27 @@ class Engine:
 
     def builtin_cols(self, args, kw, st, n):
         return args[0].d1
+
+    def builtin_op_cost(self, args, kw, st, n):
+        """spec: cost of one operation (Operation.cost of the sequence algebra, with free RAM transfers)
+        in terms of uf, ub, wd, rd: op_cost(op, uf, ub, wd, rd)"""
+        op, uf, ub, wd, rd = args
+        if isinstance(op, RowRef):
+            ty = self.row_field(op.lst, op.row, "type")
+            ix = self.row_field(op.lst, op.row, "index")
+        elif isinstance(op, Obj):
+            ty, ix = st.heap[op.oid]["type"], st.heap[op.oid]["index"]
+        else:
+            raise Unsupported("op_cost of %s" % type(op).__name__)
+        def is_(name):
+            return self.equal(ty, EnumV("str", self.reg.intern(name)))
+        level1 = self.equal(ix.i0, 1)
+        steps = self.arith(ast.Mult(), self.arith(ast.Sub(), ix.i1, ix.i0, st, n), uf, st, n)
+        return Ite(is_("Forward"), steps,
+                   Ite(is_("Backward"), ub,
+                       Ite(Or(is_("Read_disk"), And(is_("Read"), level1)), rd,
+                           Ite(Or(is_("Write_disk"), And(Or(is_("Write"), is_("Write_Forward")), level1)), wd,
+                               ZR(0)))))
 
     def builtin_is_pair(self, args, kw, st, n):
         """spec: the operation index is a two-element list"""
